@@ -578,6 +578,7 @@ pub fn run_case(r: &mut Rng, b: &Builtins, model: &mut Model, ev: &mut Ev, case:
         t.push(line);
         a
     };
+    ask(model, &mut trace, format!("(config dead-roots {})", if oracle::dead_roots_repaired() { 1 } else { 0 }));
     ask(model, &mut trace, "(init)".into());
     ask(model, &mut trace, format!("(program (canon {}) (builtins {}))", (0..p.arities.len()).map(|x| x.to_string()).collect::<Vec<_>>().join(" "), BUILTIN_NAMES.join(" ")));
     ask(model, &mut trace, param_compat(&p).1);
@@ -950,4 +951,158 @@ fn render_value(ex: &Exec, v: &Value) -> String {
         Value::Process(a, b) => format!("(p {a} {b})"),
         Value::Resource(a, b) => format!("(res {a} {b})"),
     }
+}
+
+
+/// A tail-recursive RECEIVE loop in lock step: `loop: Pop; Function(recv); Select; Pop|Store;
+/// Constant; TailCall(true)` — one message (a binary or a pair of binaries, injected by
+/// `notify_message`) is received and dropped per iteration. Besides the per-step view comparison the
+/// heap must not grow with the number of iterations (slots of injected binaries are reused).
+/// Returns the final heap size of the implementation.
+pub fn run_recv_loop(r: &mut Rng, b: &Builtins, model: &mut Model, ev: &mut Ev, iterations: usize, store_variant: bool) -> Result<usize, (String, String, serde_json::Value, bool)> {
+    let drop_instr = if store_variant { Instruction::Store } else { Instruction::Pop };
+    let p = Prog {
+        constants: vec![Constant::Integer(BigInt::from(0))],
+        functions: vec![
+            Function {
+                instructions: vec![Instruction::Pop, Instruction::Function(1), Instruction::Select, drop_instr, Instruction::Constant(0), Instruction::TailCall(true)],
+                captures: 0,
+                type_id: 0,
+            },
+            Function { instructions: vec![], captures: 0, type_id: 1 },
+        ],
+        arities: vec![0, 0, 2],
+        type_compat: vec![],
+    };
+    let mut all: HashSet<ConcreteType> = [ConcreteType::Integer, ConcreteType::Binary].into_iter().collect();
+    for t in 0..3 {
+        all.insert(ConcreteType::Tuple(t));
+    }
+    let mut bt: HashSet<ConcreteType> = (0..3).map(ConcreteType::Tuple).collect();
+    bt.insert(ConcreteType::Binary);
+    let update = ProgramUpdate {
+        constants: p.constants.clone(),
+        functions: p.functions.clone(),
+        tuples: vec![TupleTypeInfo { name: None, fields: vec![(None, 0), (None, 0)] }],
+        types: vec![],
+        builtins: vec![],
+        resources: vec![],
+        type_compatibility: vec![],
+        function_param_compatibility: vec![all, bt],
+        builtin_param_compatibility: vec![],
+        canonical_tuples: vec![0, 1, 2],
+    };
+    let mut ex = Exec::new(b.clone(), false, 0);
+    ex.update_program(update);
+    quiver_core::executor::verif::set_quantum_override(Some(1));
+    let mut trace: Vec<String> = vec![];
+    let ask = |m: &mut Model, t: &mut Vec<String>, line: String| -> String {
+        let a = m.ask(&line);
+        if t.len() < 4000 {
+            t.push(line);
+        }
+        a
+    };
+    let fail = |what: &str, detail: String, trace: &Vec<String>, found: bool| {
+        (
+            what.to_string(),
+            detail.clone(),
+            json!({"kind": "lockstep-recv-loop", "iterations": iterations, "store_variant": store_variant, "broken": "correspondence model<->impl / heap bound of the receive loop", "detail": detail, "model_requests_head": trace}),
+            found,
+        )
+    };
+    ask(model, &mut trace, format!("(config dead-roots {})", if oracle::dead_roots_repaired() { 1 } else { 0 }));
+    ask(model, &mut trace, "(init)".into());
+    ask(model, &mut trace, "(program (canon 0 1 2) (builtins))".into());
+    ask(model, &mut trace, "(receivers (fcompat (0 int bin tuple func builtin proc ref) (1 bin tuple)) (empty 1))".into());
+    let _ = ex.spawn_process(0, Some(0), vec![], Value::nil(), vec![], false);
+    ask(model, &mut trace, "(spawn-process 0 0 () (t 0) () 0)".into());
+    let mut shadow = oracle::Shadow::default();
+    let mut received = 0usize;
+    let mut max_size = 0usize;
+    let mut sent = 0usize;
+    let mut steps = 0u64;
+    while received < iterations && steps < (iterations as u64) * 40 + 200 {
+        // feed: whenever the loop is parked, and sometimes ahead of it (bursts of up to 3)
+        let parked = ex.verif_queue().is_empty();
+        let in_mailbox = ex.get_process(0).map(|p| p.mailbox.len()).unwrap_or(0);
+        if parked || (in_mailbox < 3 && r.chance(1, 5)) {
+            let burst = if parked { 1 + r.usize(3) } else { 1 };
+            for _ in 0..burst {
+                let n1 = 1 + r.usize(4);
+                let b1 = r.bytes(n1);
+                let (v, sx, heap) = if r.chance(1, 3) {
+                    let n2 = 1 + r.usize(4);
+                    let b2 = r.bytes(n2);
+                    (
+                        Value::tuple(2, vec![Value::Binary(Binary::Heap(1)), Value::Binary(Binary::Heap(0))]),
+                        "(t 2 (h 1) (h 0))".to_string(),
+                        vec![b1, b2],
+                    )
+                } else {
+                    (Value::Binary(Binary::Heap(0)), "(h 0)".to_string(), vec![b1])
+                };
+                let _ = ex.notify_message(0, v, heap.clone());
+                let a = ask(model, &mut trace, format!("(notify-message 0 {sx} {})", heap_sx(&heap)));
+                sent += 1;
+                let (_, mv) = model_view(&a);
+                let iv = oracle::canon_view(&ex);
+                if mv != iv {
+                    return Err(fail("lockstep op=notify_message kind=view path=recv-loop", format!("model {mv} impl {iv}"), &trace, false));
+                }
+            }
+        }
+        let Some(&pid) = ex.verif_queue().first() else { continue };
+        let (instr, counter, top) = {
+            let pr = ex.get_process(pid).unwrap();
+            match pr.frames.last() {
+                Some(f) => (p.functions[f.function_index].instructions.get(f.counter).copied(), f.counter, pr.stack.last().cloned()),
+                None => (None, 0, None),
+            }
+        };
+        let Some(i) = instr else { break };
+        let had_select = ex.get_process(pid).map(|p| p.select_state.is_some()).unwrap_or(false);
+        if let Err(pmsg) = qverif::catch(|| ex.step(1000, 0)) {
+            return Err(fail("lockstep kind=panic-in-step path=recv-loop", format!("panic: {pmsg}"), &trace, true));
+        }
+        steps += 1;
+        ask(model, &mut trace, "(ppf)".into());
+        let a = ask(model, &mut trace, format!("(i {pid} {})", render_instr(&i, &p, counter, top.as_ref(), Some(0), 0)));
+        let (_, mv) = model_view(&a);
+        let iv = oracle::canon_view(&ex);
+        if mv != iv {
+            let orc = oracle::check(&ex, &mut shadow);
+            return Err(fail(
+                &format!("lockstep instr={} kind=view path=recv-loop", instr_name(&i)),
+                format!("iteration {received}, after {:?}: model {mv} impl {iv} oracle {:?}", i, orc.as_ref().err()),
+                &trace,
+                orc.is_err(),
+            ));
+        }
+        if let Err((kind, detail)) = oracle::check(&ex, &mut shadow) {
+            return Err(fail(&format!("oracle kind={kind} path=recv-loop"), detail, &trace, true));
+        }
+        let pr = ex.get_process(pid).unwrap();
+        if matches!(i, Instruction::Select) && (had_select || true) && pr.select_state.is_none() && pr.result.is_none() {
+            received += 1;
+        }
+        if pr.result.is_some() {
+            return Err(fail("lockstep kind=recv-loop-ended", format!("the loop ended after {received} iterations: {:?}", pr.result.as_ref().map(|r| r.is_ok())), &trace, false));
+        }
+        max_size = max_size.max(ex.verif_heap_view().refcounts.len());
+    }
+    ev.add("recvloop:iterations", received as u64);
+    ev.add("recvloop:messages", sent as u64);
+    ev.add("recvloop:steps", steps);
+    ev.case(&("recv-loop", iterations, store_variant, sent), true);
+    // bound: at most 3 queued messages + the one in hand, two binaries each
+    if max_size > 12 {
+        return Err(fail(
+            "oracle kind=heap-growth path=recv-loop",
+            format!("heap grew to {max_size} slots over {received} iterations of a loop that holds at most 4 messages at a time"),
+            &trace,
+            true,
+        ));
+    }
+    Ok(max_size)
 }
